@@ -54,6 +54,7 @@ type World struct {
 	factMemo   map[*ssa.Function]*funcFacts
 	li         *lockInfo
 	eff        *effectInfo
+	fl         *flowInfo
 	NPkgs      int
 	NFuncs     int
 }
